@@ -23,4 +23,6 @@ CONSTANTS
   AlgStride = 97
   CbStride = 1
   ShapeStride = 1
-INVARIANTS TypeOK AlgSumIsValue AlgPermutation AlgAddSubRestores AlgSplitSums AlgCommitHom EmitAlg
+  PairStride = 1
+  WalPicks = 1
+INVARIANTS TypeOK AlgSumIsValue AlgPermutation AlgAddSubRestores AlgSplitSums AlgCommitHom AlgZeroOperands AlgSignHom EmitAlg
